@@ -99,6 +99,23 @@ theorem runG_mono : ∀ (ls : List LTr), (∀ l ∈ ls, ∀ a b, a ≤ b → l.g
     apply ih (fun s hs => hm s (List.mem_cons_of_mem _ hs))
     omega
 
+/-- the sharp bound stays below `MaxEncodedLen` of the sequence -/
+theorem runG_le_runMax (lim : Nat) : ∀ (ls : List LTr), (∀ l ∈ ls, l.t.Law l.g lim) →
+    ∀ s m, s ≤ m → runG ls s ≤ lim → runG ls s ≤ runMax ls m := by
+  intro ls
+  induction ls with
+  | nil => intro _ s m h _; exact h
+  | cons l ls ih =>
+    intro hlaw s m hsm hlim
+    have hL := hlaw l (List.mem_cons_self ..)
+    rw [runG] at hlim ⊢
+    rw [runMax]
+    have hslim : s ≤ lim := Nat.le_trans (Nat.le_trans (Nat.le_max_left s (l.g s)) (le_runG ls _)) hlim
+    have hs' : max s (l.g s) ≤ (if l.t.maxLen m > m then l.t.maxLen m else m) := by
+      have h1 := hL.gbound s m hsm hslim
+      split <;> omega
+    exact ih (fun l' h' => hlaw l' (List.mem_cons_of_mem _ h')) _ _ hs' hlim
+
 /-! ### skip flags of the forward loop -/
 
 theorem seqFwdGo2_flag_preserved (req l0 : Nat) :
